@@ -685,7 +685,7 @@ def run_loop_slice(eng, contract, d, st, fr, result):
     eng.lazy_locals = True
     try:
         # every variable of the function declared outside the sliced body gets an arbitrary value (by its type)
-        body_node = n['inner'][7] if n['kind'] == 'CXXForRangeStmt' else n['inner'][-1]
+        body_node = n['inner'][7] if n['kind'] == 'CXXForRangeStmt' else (n['inner'][0] if n['kind'] == 'DoStmt' else n['inner'][-1])
         def outer_vars(x, acc):
             if not isinstance(x, dict) or x is body_node: return
             if x.get('kind') in ('VarDecl', 'BindingDecl') and x.get('name') and not x['name'].startswith('__'): acc.append(x)
@@ -748,6 +748,9 @@ def run_loop_slice(eng, contract, d, st, fr, result):
             st.pc.append(eng.as_bool(eng.rv(c, st, fr)))
             result['slice_pre'] = st.clone()
             return eng.exec_stmt(body, st, fr)
+        elif n['kind'] == 'DoStmt':
+            # do { body } while (cond): an arbitrary iteration starts in an arbitrary state (the first one is entered unconditionally)
+            body = n['inner'][0]
         else:
             raise Unsupported('slice of %s' % n['kind'])
         result['slice_pre'] = st.clone()
